@@ -454,6 +454,115 @@ func serveTCP(seed int64, good, bad, msgs int) string {
 	return b.String()
 }
 
+// ---------------------------------------------------------------- peer table against the model
+
+// peerTable drives a real datagram server with a history of events and reports which peers have an entry in its peer
+// table after each event (hook VerifConnKeys):  w<i> well-formed request from peer i, m<i> undecodable datagram from
+// peer i, n<i> server-initiated connection to peer i (NewConn), c<i> the server closes its connection to peer i.
+func peerTable(evs []string) string {
+	l, err := coapNet.NewListenUDP("udp4", "127.0.0.1:0")
+	if err != nil {
+		return "rig-error listen"
+	}
+	defer l.Close()
+	r := mux.NewRouter()
+	_ = r.Handle("/echo", mux.HandlerFunc(func(w mux.ResponseWriter, req *mux.Message) {
+		_ = w.SetResponse(codes.Content, message.TextPlain, bytes.NewReader([]byte("x")))
+	}))
+	s := udp.NewServer(options.WithMux(r), options.WithErrors(func(error) {}))
+	served := make(chan error, 1)
+	go func() { served <- s.Serve(l) }()
+	defer func() {
+		s.Stop()
+		select {
+		case <-served:
+		case <-time.After(3 * time.Second):
+		}
+	}()
+	addr := l.LocalAddr().(*net.UDPAddr)
+	time.Sleep(30 * time.Millisecond)
+	socks := map[int]*net.UDPConn{}
+	defer func() {
+		for _, c := range socks {
+			c.Close()
+		}
+	}()
+	sock := func(i int) *net.UDPConn {
+		if c, ok := socks[i]; ok {
+			return c
+		}
+		c, err := net.DialUDP("udp4", nil, addr)
+		if err != nil {
+			return nil
+		}
+		socks[i] = c
+		return c
+	}
+	conns := map[int]*udpclient.Conn{}
+	var out []string
+	seq := 0
+	for _, e := range evs {
+		if len(e) < 2 {
+			return "bad-op"
+		}
+		i, err := strconv.Atoi(e[1:])
+		if err != nil {
+			return "bad-op"
+		}
+		c := sock(i)
+		if c == nil {
+			return "rig-error dial"
+		}
+		switch e[0] {
+		case 'w':
+			seq++
+			_, _ = c.Write(request(byte(i), seq, int32(2000+seq), true))
+		case 'm':
+			_, _ = c.Write([]byte{0xff, 0xff, 0xff})
+		case 'n':
+			cc, err := s.NewConn(c.LocalAddr().(*net.UDPAddr))
+			if err == nil {
+				conns[i] = cc
+			}
+		case 'c':
+			// close whatever connection the server has for that peer
+			for _, k := range s.VerifConnKeys() {
+				if strings.HasPrefix(k, c.LocalAddr().String()+"-") && !strings.HasSuffix(k, "!closed") {
+					if cc, err := s.NewConn(c.LocalAddr().(*net.UDPAddr)); err == nil {
+						_ = cc.Close()
+					}
+				}
+			}
+		default:
+			return "bad-op"
+		}
+		time.Sleep(15 * time.Millisecond)
+		present := map[int]int{}
+		for _, k := range s.VerifConnKeys() {
+			if strings.HasSuffix(k, "!closed") {
+				continue // logically gone: removed by the next housekeeping pass or replaced by the peer's next datagram
+			}
+			for j, sc := range socks {
+				if strings.HasPrefix(k, sc.LocalAddr().String()+"-") {
+					present[j]++
+				}
+			}
+		}
+		var ids []string
+		for j := 0; j < 64; j++ {
+			for n := 0; n < present[j]; n++ {
+				ids = append(ids, strconv.Itoa(j))
+			}
+		}
+		if len(ids) == 0 {
+			out = append(out, "-")
+		} else {
+			out = append(out, strings.Join(ids, ","))
+		}
+	}
+	return "t " + strings.Join(out, " ")
+}
+
 // ---------------------------------------------------------------- one peer's backlog and the shared read loop
 
 // serveUDPBacklog: peer A sends a burst of well-formed non-confirmable requests to a resource whose handler takes
@@ -1021,6 +1130,8 @@ func TestC10(t *testing.T) {
 			} else {
 				fmt.Fprintln(w, serveTCP(seed, good, bad, msgs))
 			}
+		case len(f) >= 2 && f[0] == "table":
+			fmt.Fprintln(w, peerTable(f[1:]))
 		case (len(f) == 2 || len(f) == 3 && f[2] == "dup") && f[0] == "discover":
 			n, _ := strconv.Atoi(f[1])
 			fmt.Fprintln(w, discover(n, len(f) == 3))
